@@ -460,7 +460,9 @@ def step_replay(h, vals, label):
 # ---------------------------------------------------------------------------------------------
 # H17a: one particle of one generation from an ARBITRARY previous generation (inductive step)
 # ---------------------------------------------------------------------------------------------
-def step_unit(prior_set, sel, generation, constraint=None, N=2, max_rej=2, n=2):
+def step_unit(prior_set, sel, generation, constraint=None, N=2, max_rej=2, n=2, nan_first=False):
+    """nan_first: a labelled float probe outside the real-arithmetic claim -- the loss returns NaN for the first trial inside
+    the prior support (e.g. a Poisson loss whose predicted mean dipped below zero); such a trial must not be accepted"""
     def h(c):
         draws = Draws(c, max_rej + 1)
         st = stubs.StatsStub(c, closed_forms=False, support=True) if c.mode == "sym" else None
@@ -476,6 +478,14 @@ def step_unit(prior_set, sel, generation, constraint=None, N=2, max_rej=2, n=2):
                 c.prove(P == len(K.names), "numParam counts the inferred parameters and initial values")
                 wrap_prior_trials(draws, K)
                 abc.N = N
+                if nan_first:
+                    orig_cost, seen = K.obj.cost, {"k": 0}
+
+                    def cost_nan_first(*a, **kw):
+                        seen["k"] += 1
+                        v = orig_cost(*a, **kw)
+                        return float("nan") if seen["k"] == 1 else v
+                    K.obj.cost = cost_nan_first
                 tol = c.real("tol", lo=0, lo_strict=True)
                 if c.mode == "concrete" and "tol_override" in c.values:
                     tol = float(c.values["tol_override"])
@@ -488,6 +498,11 @@ def step_unit(prior_set, sel, generation, constraint=None, N=2, max_rej=2, n=2):
                                               par_update=abc._get_update_function(), res_old=res_old, w_old=w_old)
                 c.reachable("particle accepted")
                 weight, rejections, trial, cost = out
+                if nan_first:
+                    isnan = isinstance(cost, float) and cost != cost
+                    c.prove(not isnan, "a trial whose cost is not a number (NaN) is not accepted")
+                    if isnan:
+                        return
                 if c.mode == "concrete":
                     c.events.append(("accepted_cost", float(cost)))
                 trial = list(np.asarray(trial, dtype=object).ravel())
@@ -505,7 +520,7 @@ def step_unit(prior_set, sel, generation, constraint=None, N=2, max_rej=2, n=2):
             finally:
                 if book is not None:
                     ctxs[1].__exit__(None, None, None)
-    return Unit("C17.step[%s,obs=%s,gen=%d,constraint=%s]" % (prior_set, "+".join(sel), generation, constraint), h,
+    return Unit("C17.step[%s,obs=%s,gen=%d,constraint=%s%s]" % (prior_set, "+".join(sel), generation, constraint, ",first cost NaN" if nan_first else ""), h,
                 bounds={"priors": [list(map(str, s)) for s in PRIOR_SETS[prior_set]], "observed_states": list(sel), "generation": generation,
                         "previous_generation_size": N, "max_rejections": max_rej, "observation_times": n,
                         "constraint": constraint}, tol=2e-5, max_paths=600, replay=lambda vals, label: step_replay(h, vals, label))
@@ -583,7 +598,7 @@ def run_unit(prior_set, sel, mode, N=2, G=2, M=None, cont=False, extra_trials=1,
                         "generations": 1 if mode == "rejection" else G, "M": M, "continued": cont,
                         "rejections_in_total": extra_trials, "observation_times": n,
                         "resampling_indices": "symbolic" if not picks else "first %d fixed to %s (the sibling units cover the other values)" % (len(picks), list(picks))},
-                tol=2e-5, max_paths=4000, time_budget_s=1500)
+                tol=2e-5, max_paths=4000, time_budget_s=2400)
 
 
 def guard_unit():
@@ -663,13 +678,16 @@ class C17(Check):
                       ("J_blog_g", ("R", "J"), 1, None), ("Rlog_S_g", ("J",), 0, "J")]
         for ps, sel, g, con in steps:
             us.append(step_unit(ps, sel, g, con, max_rej=1 if tier == "quick" else 2))
+        # float probe (outside the real-arithmetic claim, labelled): the first in-support trial costs NaN
+        us.append(step_unit("gb_unif", ("J",), 0, None, max_rej=1, nan_first=True))
+        us.append(step_unit("gb_unif", ("J",), 1, None, max_rej=1, nan_first=True))
         us.append(run_unit("gb_unif", ("J",), "rejection", N=2))
         pp2 = list(itertools.product(range(2), repeat=2))
         for pk in pp2:
             us.append(run_unit("gb_unif", ("J",), "quantile", N=2, G=2, extra_trials=0, picks=pk))
         if tier != "quick":
             for pk in pp2:
-                us.append(run_unit("gb_unif", ("J",), "tol_list", N=2, G=2, extra_trials=1, picks=pk))
+                us.append(run_unit("gb_unif", ("J",), "tol_list", N=2, G=2, extra_trials=0, picks=pk))
                 us.append(run_unit("gb_unif", ("J",), "quantile", N=2, G=2, M=1, extra_trials=0, picks=pk))
                 us.append(run_unit("b_log_g_gamma", ("J",), "quantile", N=2, G=2, extra_trials=0, picks=pk))
                 us.append(run_unit("gb_unif", ("J",), "quantile", N=2, G=2, extra_trials=0, entry="get_posterior_sample_original", picks=pk))
